@@ -47,7 +47,29 @@ pub fn exec_topo(input: &Value) -> (Value, Value) {
     let types_order: Vec<String> = types.iter().cloned().collect();
     let deps_order: Vec<Value> =
         g.dependencies.iter().map(|(k, v)| json!([k, v.iter().cloned().collect::<Vec<_>>()])).collect();
-    let imp = guarded(|| json!({"sorted": g.topological_sort_types(&types)}));
+    // what the object has recorded must be what it was told last: every entry of `graph` as given, every other key of the
+    // earlier life with the empty set
+    let mut intended: std::collections::HashMap<String, HashSet<String>> = std::collections::HashMap::new();
+    if let Some(pre) = input.get("pre_graph").and_then(|x| x.as_array()) {
+        for e in pre {
+            intended.insert(e[0].as_str().unwrap_or("").to_string(), HashSet::new());
+        }
+    }
+    for e in input["graph"].as_array().cloned().unwrap_or_default() {
+        intended.insert(e[0].as_str().unwrap_or("").to_string(),
+            e[1].as_array().map(|a| a.iter().filter_map(|x| x.as_str().map(String::from)).collect()).unwrap_or_default());
+    }
+    let same_edges = |a: &std::collections::HashMap<String, HashSet<String>>, b: &std::collections::HashMap<String, HashSet<String>>| {
+        a.iter().all(|(k, v)| v.is_empty() && !b.contains_key(k) || b.get(k) == Some(v))
+    };
+    let recorded_ok = same_edges(&intended, &g.dependencies) && same_edges(&g.dependencies, &intended);
+    let imp = guarded(|| {
+        if recorded_ok {
+            json!({"sorted": g.topological_sort_types(&types)})
+        } else {
+            json!({"sorted": g.topological_sort_types(&types), "table_mismatch": true})
+        }
+    });
     let mut in2 = input.clone();
     in2["types"] = json!(types_order);
     in2["deps"] = json!(deps_order);
